@@ -77,7 +77,11 @@ def canonicalize_url(
 
     # Empty path etc.
     if not path or path == "/":
-        if not query and not fragment:
+        # NOTE: a host ending with a whitespace character cannot end the url (the
+        # cleaning pass of the next call would strip it): it keeps its slash
+        ends_with_space = port is None and hostname and hostname[-1].isspace()
+
+        if not query and not fragment and not ends_with_space:
             path = ""
         else:
             path = "/"
